@@ -208,7 +208,7 @@ pub fn gen_scenario(r: &mut Rng, seed: u64) -> Scenario {
         peers.push(PeerSpec { addr: addr(k), id: peer_id(k), entry: if incoming { Entry::Incoming { at_ms: 0 } } else { Entry::Dialled { from_announce: 0 } }, make: Box::new(move |nth| if nth > 1 { None } else { Some(fuzz_leecher(c2.clone())) }), chunk: *r.pick(&[0usize, 0, 5]), pipe: 1 << 20 });
     }
     let desc = json!({"seed": seed, "piece_length": torrent.piece_len, "pieces": n, "virtual_ms": dur, "peers": pdesc});
-    Scenario { cfg: SimCfg { torrent, peers, tracker: vec![], failpoints: if r.chance(1, 3) { Some(r.next()) } else { None }, max_virtual_ms: dur, stop_on_extract: false, linger_ms: 0, disk_on: disk_on_ownership, seed, driver: None }, desc }
+    Scenario { cfg: SimCfg { torrent, peers, tracker: vec![], failpoints: if r.chance(1, 3) { Some(r.next()) } else { None }, max_virtual_ms: dur, stop_on_extract: false, linger_ms: 0, disk_on: disk_on_ownership, seed, tracker_fn: None, driver: None }, desc }
 }
 
 pub fn trace_for(o: &Outcome, a: &str, at_seq: u64) -> Vec<String> {
